@@ -319,7 +319,57 @@ def rule_pruning_radius(ctx):
                 n, floor=20, samples=samples)
 
 
+def rule_top_two(ctx):
+    """R13.8: the tree searches prune with the second-largest radius (R13.7), which reb_simulation_add maintains together
+    with the largest one. The update touches its values only through comparisons and copies, so it is decided on one
+    representative per ordering of (new radius, largest, second largest): afterwards the pair must be the two largest
+    of the three values."""
+    from . import orders
+    tu = cfront.load_tu('particle.c')
+    fn = tu.func('reb_simulation_add')
+    target = None
+    for st in cfront.body(fn).get('inner', []):
+        if st.get('kind') == 'IfStmt':
+            assigned = sorted({orders._path(e['inner'][0]) for e in walk(st) if is_assign(e) and strip(e['inner'][0]).get('kind') == 'MemberExpr'})
+            if len(assigned) == 2 and all('radius' in a for a in assigned):
+                target = (st, assigned)
+    anchor(target is not None, 'reb_simulation_add: if/else that maintains the two largest radii')
+    st, (m_a, m_b) = target
+    reads = sorted({orders._path(e) for e in walk(st) if e.get('kind') == 'MemberExpr' and strip(e).get('kind') == 'MemberExpr'} - {m_a, m_b})
+    reads = [r_ for r_ in reads if not any(r_ == x.rsplit('.', 1)[0] for x in (m_a, m_b))]
+    anchor(len(reads) == 1, 'reb_simulation_add: one new value is compared with the two maxima (%s)' % reads)
+    v = reads[0]
+    n = 0
+    fails = {}
+    for top, second in ((m_a, m_b), (m_b, m_a)):
+        bad = []
+        for env0 in orders.weak_orderings([v, top, second]):
+            if env0[top] < env0[second]:
+                continue            # the pair is kept ordered: only such states are reachable
+            env = dict(env0)
+            try:
+                orders.run(st, env)
+            except orders.Unsupported as ex:
+                raise AnalysisError('R13.8: the update of the largest radii in reb_simulation_add is no longer made of comparisons and copies only (%s)' % ex)
+            n += 1
+            want = sorted([env0[v], env0[top], env0[second]], reverse=True)[:2]
+            if [env[top], env[second]] != want:
+                bad.append('new %g, largest %g, second %g -> (%g, %g), expected (%g, %g)' % (env0[v], env0[top], env0[second], env[top], env[second], want[0], want[1]))
+        fails[(top, second)] = bad
+    good = [k_ for k_, b_ in fails.items() if not b_]
+    if not good:
+        k_ = min(fails, key=lambda q: len(fails[q]))
+        ctx.report('R13.8', 'reb_simulation_add:top2', 'src/particle.c:%s reb_simulation_add' % line_of(st),
+                   'after adding a particle (%s, %s) are not the two largest radii in %d of the orderings, e.g. %s: the tree searches open cells with the second-largest radius and miss pairs whose partner is larger'
+                   % (k_[0], k_[1], len(fails[k_]), fails[k_][0]))
+    ctx.covered('R13.8', 'largest/second-largest radius update evaluated on every ordering of (new, largest, second)', n, floor=10,
+                samples=['%s is the largest, %s the second largest' % good[0]] if good else [])
+
+
 def run(ctx):
+    rule_top_two(ctx)
+    from . import serial
+    serial.rule_tree_predicate(ctx, 'R13.9')   # every site that decides "this simulation uses the tree" names both tree searches: a restored linetree simulation gets its tree back
     rule_pruning_radius(ctx)
     rule_dispatch(ctx)
     rule_fixup_siblings(ctx)
